@@ -25,6 +25,7 @@ type Env struct {
 	noLocals bool
 	pkgPath  string
 	inOld    bool
+	oldNames map[string]*Val // iteration clauses: loop variables at the head of the iteration
 }
 
 func (e *Env) child() *Env {
@@ -447,6 +448,11 @@ func (c *Ctx) evalIdent(name string, env *Env) *Val {
 			return v
 		}
 		if v := c.reassignedParam(name); v != nil {
+			return v
+		}
+	}
+	if env.inOld && env.oldNames != nil {
+		if v, ok := env.oldNames[name]; ok {
 			return v
 		}
 	}
@@ -1236,6 +1242,14 @@ func (c *Ctx) evalCall(e *Expr, env *Env) *Val {
 			r := c.convert(x, t, env.st)
 			c.inSpec = save
 			return r
+		}
+		if isString(t) && x.K == VSlice {
+			// string(b) of a byte slice: the same model as the conversion in code
+			st := env.st
+			if env.inOld {
+				st = env.old
+			}
+			return c.stringOfBytes(x, t, st)
 		}
 		n := *x
 		n.T = t
